@@ -1458,6 +1458,244 @@ func consolidateK(r *vh.Run, doc []byte, sp *sharedSpec) {
 	}
 }
 
+// ---- the scanner that decides which resource names a page uses (parseContent)
+
+func usedNamesCase(r *vh.Run, content string) {
+	res := func() (res string) {
+		defer func() {
+			if e := recover(); e != nil {
+				res = "panic"
+			}
+		}()
+		prn, err := model.VerifParseContent(content)
+		if err != nil {
+			return "err"
+		}
+		items := []string{}
+		for _, c := range resCats {
+			for n := range prn[c] {
+				items = append(items, c+":"+hx(n))
+			}
+		}
+		sort.Strings(items)
+		return "ok:" + strings.Join(items, ",")
+	}()
+	r.Case("UsedNames", []string{hx(content)}, res)
+	r.Count("scan:" + strings.SplitN(res, ":", 2)[0])
+}
+
+// grammarCase: content built from the grammar of theorem C20_used_names_exact; the real
+// scanner must report exactly the names in operator position.
+func grammarCase(r *vh.Run) {
+	var content strings.Builder
+	want := map[string]bool{}
+	plain := []byte("abc /<[%(>]~0123 \n")
+	for i, n := 0, 1+r.Rand.Intn(5); i < n; i++ {
+		if r.Rand.Intn(3) != 0 {
+			content.WriteString(" (")
+			for k, m := 0, r.Rand.Intn(7); k < m; k++ {
+				switch r.Rand.Intn(4) {
+				case 0:
+					content.WriteByte('\\')
+					content.WriteByte([]byte("\\\\)(n1\n")[r.Rand.Intn(7)])
+				case 1:
+					for q, e := 0, r.Rand.Intn(3); q < e; q++ { // runs of escaped backslashes
+						content.WriteString("\\\\")
+					}
+				default:
+					content.WriteByte(plain[r.Rand.Intn(len(plain))])
+				}
+			}
+			content.WriteString(") Tj")
+		}
+		nm := []string{"F2", "Im1", "GS1", "CS1", "P1", "Sh1", "MC1", "BI", "cs", "x"}[r.Rand.Intn(10)] + strconv.Itoa(i)
+		switch r.Rand.Intn(7) {
+		case 0:
+			content.WriteString(" /" + nm + " 12 Tf")
+			want["Font:"+hx(nm)] = true
+		case 1:
+			content.WriteString(" /" + nm + " Do")
+			want["XObject:"+hx(nm)] = true
+		case 2:
+			content.WriteString(" /" + nm + " gs")
+			want["ExtGState:"+hx(nm)] = true
+		case 3:
+			content.WriteString(" /" + nm + " cs")
+			want["ColorSpace:"+hx(nm)] = true
+		case 4:
+			content.WriteString(" /Pattern cs /" + nm + " scn")
+			want["Pattern:"+hx(nm)] = true
+		case 5:
+			content.WriteString(" /" + nm + " sh")
+			want["Shading:"+hx(nm)] = true
+		default:
+			content.WriteString(" /T /" + nm + " BDC")
+			want["Properties:"+hx(nm)] = true
+		}
+	}
+	c := content.String()
+	usedNamesCase(r, c)
+	items := []string{}
+	for k := range want {
+		items = append(items, k)
+	}
+	sort.Strings(items)
+	exp := "ok:" + strings.Join(items, ",")
+	got := func() (res string) {
+		defer func() {
+			if e := recover(); e != nil {
+				res = "panic"
+			}
+		}()
+		prn, err := model.VerifParseContent(c)
+		if err != nil {
+			return "err"
+		}
+		l := []string{}
+		for _, cat := range resCats {
+			for n := range prn[cat] {
+				l = append(l, cat+":"+hx(n))
+			}
+		}
+		sort.Strings(l)
+		return "ok:" + strings.Join(l, ",")
+	}()
+	if got != exp {
+		r.OracleFail("scanner-misses-name-in-operator-position", map[string]any{"content": c}, "parseContent reports "+got+", names in operator position "+exp)
+	} else {
+		r.OracleOK()
+	}
+}
+
+// content tokens for the exhaustive K stream: every kind of operand the scanner skips, every
+// operator it knows, with and without glued neighbours
+var scanTokens = []string{
+	"/F1", "/X", "/Pattern", "/DeviceRGB", "12", "0.5", "Tf", "Do", "gs", "cs", "CS", "scn", "SCN", "sh",
+	"BDC", "DP", "BMC", "EMC", "ri", "MP", "Tj", "TJ", "q", "Doq", "csx", "BT",
+	"(a)", "()", "(a\\)b)", "(a\\\\)", "(\\\\\\)x)", "(a(b)c)", "(a\\(b)", "(\\101\\\n)", "(a", ")",
+	"(" + strings.Repeat("\\", 3) + ")z)", "(" + strings.Repeat("\\", 4) + ")", "(" + strings.Repeat("\\", 5) + ")w)", "(" + strings.Repeat("\\", 2) + "(" + strings.Repeat("\\", 3) + "()",
+	"<28>", "<2f46>", "<", "[(a)-1(b\\))]", "[<28>1", "]", "% /F9 )(\n", "%x",
+	"<< /K 1 >>", "<</A<</B 1>>>>", "<< /K", "/T<</M 0>>",
+}
+
+func scannerK(r *vh.Run) {
+	seps := []string{" ", "", "\n"}
+	emit := func(toks []string) {
+		sep := seps[0]
+		usedNamesCase(r, strings.Join(toks, sep))
+		if r.Rand.Intn(4) == 0 {
+			var sb strings.Builder
+			for _, t := range toks {
+				sb.WriteString(t)
+				sb.WriteString(seps[r.Rand.Intn(len(seps))])
+			}
+			usedNamesCase(r, sb.String())
+		}
+	}
+	n := len(scanTokens)
+	for a := 0; a < n; a++ {
+		emit([]string{scanTokens[a]})
+		for b := 0; b < n; b++ {
+			emit([]string{scanTokens[a], scanTokens[b]})
+			for c := 0; c < n; c++ {
+				if r.Thorough() || r.Rand.Intn(6) == 0 {
+					emit([]string{scanTokens[a], scanTokens[b], scanTokens[c]})
+				}
+			}
+		}
+	}
+	for i, m := 0, r.Pick(4000, 100000); i < m; i++ {
+		grammarCase(r)
+	}
+	// longer random sequences
+	for i, m := 0, r.Pick(4000, 200000); i < m; i++ {
+		var toks []string
+		for k, l := 0, 4+r.Rand.Intn(5); k < l; k++ {
+			toks = append(toks, scanTokens[r.Rand.Intn(n)])
+		}
+		emit(toks)
+	}
+}
+
+// hazards: operands the scanner has to skip correctly; each is followed by the only use of a
+// resource name
+type hazard struct{ id, text string }
+
+var hazards = []hazard{
+	{"plain", "(abc) Tj"},
+	{"bs-end", "(Folder C:\\\\) Tj"},
+	{"bs1-close", "(a\\) b) Tj"},
+	{"bs2-close", "(a\\\\) Tj"},
+	{"bs3-close", "(a\\\\\\) b) Tj"},
+	{"bs4-close", "(a\\\\\\\\) Tj"},
+	{"bs5-close", "(a\\\\\\\\\\) b) Tj"},
+	{"bs1-open", "(a\\( b) Tj"},
+	{"bs2-open", "(a\\\\(b) c) Tj"},
+	{"bs3-open", "(a\\\\\\( b) Tj"},
+	{"esc-both", "(\\(\\)\\\\) Tj"},
+	{"octal", "(\\101\\051\\50) Tj"},
+	{"linecont", "(ab\\\ncd) Tj"},
+	{"nested", "(a (b) c) Tj"},
+	{"nested2", "(a (b (c) d) e) Tj"},
+	{"nested-name", "(x (y) /F9 z) Tj"},
+	{"nested-lt", "(a (b) <c) Tj"},
+	{"nested-bracket", "(a (b) [c) Tj"},
+	{"nested-percent", "(see (fig) 100%) Tj"},
+	{"hex-29", "<2928> Tj"},
+	{"hex-sp", "<28 29 2F> Tj"},
+	{"tj-array", "[(a\\)) -10 (b\\\\) <29>] TJ"},
+	{"dict-bdc", "/Span << /ActualText (a) /MCID 0 >> BDC EMC"},
+	{"dict-dp", "/Tag << /N /F9 /A << /B 1 >> >> DP"},
+	{"inline-image", "q BI /W 2 /H 2 /CS /G /BPC 8 ID )/EI( EI Q"},
+	{"inline-image2", "q BI /W 4 /H 1 /CS /G /BPC 8 /F /AHx ID 29 2F 45 49> EI Q"},
+	{"comment", "% /F9 ) ( 12 Tf\n"},
+	{"comment-cr", "% (unbalanced\r"},
+}
+
+// genHazardDoc: on every page, every category's only use of a name follows a hazard
+func genHazardDoc(r *rand.Rand, forced int) ([]byte, string) {
+	b := &pdfb{}
+	d := &docSpec{}
+	cat := b.add("")
+	root := b.add("")
+	h := hazards[forced%len(hazards)]
+	f1 := addFont(b, r, d)
+	f2 := addFont(b, r, d)
+	im := addImage(b, r, d, false)
+	gs := b.add("<< /Type /ExtGState /LW 2 >>")
+	cs := b.add("[/CalGray << /WhitePoint [1 1 1] >>]")
+	sh := b.add("<< /ShadingType 2 /ColorSpace /DeviceGray /Coords [0 0 1 1] /Function << /FunctionType 2 /Domain [0 1] /C0 [0] /C1 [1] /N 1 >> >>")
+	pt := b.add(fmt.Sprintf("<< /Type /Pattern /PatternType 2 /Shading %d 0 R >>", sh))
+	mc := b.add("<< /MCID 0 >>")
+	res := fmt.Sprintf("<< /Font << /F1 %d 0 R /F2 %d 0 R >> /XObject << /Im1 %d 0 R >> /ExtGState << /GS1 %d 0 R >> /ColorSpace << /CS1 %d 0 R >> /Shading << /Sh1 %d 0 R >> /Pattern << /P1 %d 0 R >> /Properties << /MC1 %d 0 R >> >>", f1, f2, im, gs, cs, sh, pt, mc)
+	uses := []string{"/F2 12 Tf (x) Tj", "q /Im1 Do Q", "/GS1 gs", "/CS1 cs", "/Pattern cs /P1 scn", "/Sh1 sh", "/Tag /MC1 BDC EMC"}
+	var kids []string
+	for p := 0; p < 2; p++ {
+		var content strings.Builder
+		content.WriteString("BT /F1 12 Tf ")
+		r.Shuffle(len(uses), func(i, j int) { uses[i], uses[j] = uses[j], uses[i] })
+		for i, u := range uses {
+			hz := h
+			if p == 1 {
+				hz = hazards[r.Intn(len(hazards))]
+			}
+			if i%2 == 0 || p == 0 {
+				content.WriteString(hz.text + " ")
+			}
+			content.WriteString(u + " ")
+		}
+		content.WriteString("ET")
+		c := b.stream("", []byte(content.String()))
+		kids = append(kids, fmt.Sprintf("%d 0 R", b.add(fmt.Sprintf("<< /Type /Page /Parent %d 0 R /Resources %s /Contents %d 0 R >>", root, res, c))))
+		if p == 0 && r.Intn(2) == 0 {
+			break
+		}
+	}
+	b.set(root, fmt.Sprintf("<< /Type /Pages /Count %d /Kids [%s] /MediaBox [0 0 612 792] >>", len(kids), strings.Join(kids, " ")))
+	b.set(cat, fmt.Sprintf("<< /Type /Catalog /Pages %d 0 R >>", root))
+	return b.bytes(cat), h.id
+}
+
 // ---- duplicates with normalisable extras
 
 // genExtrasDoc: k copies of one form XObject / image / soft-mask group form (same dict, same
@@ -1957,6 +2195,9 @@ func docOracle(r *vh.Run, doc []byte, dupContent bool, kind string) {
 					class = "optimize-page-loses-used-resource"
 				}
 			}
+			if class == "optimize-page-loses-used-resource" && nestedParens(contentOf(fpB[i])) {
+				class = "content-scanner-nested-parentheses-lose-used-resource"
+			}
 			if contentOf(fpA[i]) != contentOf(fpB[i]) {
 				class = "optimize-page-content"
 				if kind == "rawtwin" {
@@ -2037,6 +2278,21 @@ func mixedCycleDocOracle(r *vh.Run) {
 	}
 }
 
+// nestedParens: the page content (hex, as in the fingerprint) contains one of the hazards
+// with an unescaped '(' inside a string
+func nestedParens(contentField string) bool {
+	b, err := hex.DecodeString(strings.TrimPrefix(contentField, "content="))
+	if err != nil {
+		return false
+	}
+	for _, h := range hazards {
+		if (strings.HasPrefix(h.id, "nested") || h.id == "bs2-open") && bytes.Contains(b, []byte(h.text)) {
+			return true
+		}
+	}
+	return false
+}
+
 func contentOf(fp string) string {
 	i := strings.Index(fp, "content=")
 	j := strings.Index(fp[i:], " ")
@@ -2070,6 +2326,11 @@ func main() {
 		doc, desc := genExtrasDoc(r.Rand)
 		docOracle(r, doc, r.Rand.Intn(2) == 0, "extras:"+desc)
 		formDedupK(r, doc)
+	}
+	scannerK(r)
+	for i, n := 0, r.Pick(3*len(hazards), 40*len(hazards)); i < n; i++ {
+		doc, id := genHazardDoc(r.Rand, i)
+		docOracle(r, doc, false, "hazard:"+id)
 	}
 	mixedCycleDocOracle(r)
 	for i := 0; i < 2; i++ {
